@@ -638,12 +638,13 @@ def _imag(a):
 
 
 # ------------------------------------------------------------------------------ builders
-def fresh(name, shape=(), nan=False, complex_=False):
+def fresh(name, shape=(), nan=False, complex_=False, nn=False):
+    """nn=True declares the value non-negative to the scalar layer (the harness must also assume it)"""
     def mk(nm):
         flag = z3.Bool(nm + "_nan") if nan else None
         if complex_:
             return SC(z3.Real(nm + "r"), z3.Real(nm + "i"), flag)
-        return SV(z3.Real(nm), flag)
+        return SV(z3.Real(nm), flag, nn=nn)
     if shape == ():
         return mk(name)
     out = np.empty(shape, dtype=object)
